@@ -161,3 +161,128 @@ def hierarchies(run):
                                               missing, mro, src), path=path)
         run.case = None
     core.explore(lambda: None, lambda p, out: go(p))
+
+
+IMPORT_FORMS = [
+    ('import-module', 'import basemod', 'basemod.B'),
+    ('from-import', 'from basemod import B', 'B'),
+    ('from-import-as', 'from basemod import B as Bx', 'Bx'),
+    ('import-module-as', 'import basemod as bm', 'bm.B'),
+    ('star-import', 'from basemod import *', 'B'),
+    ('package-submodule', 'import pk.inner', 'pk.inner.B'),
+    ('from-package-import-module', 'from pk import inner', 'inner.B'),
+]
+
+MM_REPLAY = '''import sys, os, tempfile, shutil; sys.path.insert(0, %(repo)r)
+from supp.assistant import assist, location
+from supp.project import Project
+d = tempfile.mkdtemp(prefix='supp-c06-')
+try:
+    os.makedirs(os.path.join(d, 'pk'))
+    open(os.path.join(d, 'pk', '__init__.py'), 'w').close()
+    for fn in ('basemod.py', os.path.join('pk', 'inner.py')):
+        open(os.path.join(d, fn), 'w').write(%(base)r)
+    text = %(text)r
+    print(%(base)r); print(text)
+    got = %(call)s
+    print(got)
+    print('expected:', %(want)r)
+    print('REPRODUCED: %(why)s')
+finally:
+    shutil.rmtree(d, ignore_errors=True)
+'''
+
+
+@harness(['C06'], 'supp.assistant.assist / location on obj.attr [base classes in another project module, every import form]',
+         bounded='base chain A <- B in a project module (top-level module and module inside a package), class D(<reference to B>) in the edited text '
+                 'through 7 import forms x every subset of {A, B, D} overriding `shared` x every subset assigning self.inst_x')
+def hierarchies_across_modules(run):
+    """BOUNDED stand-in: the same claims as `hierarchies`, with the bases of D defined in another project module and referenced through every
+    import form (dotted reference, from-import, alias, star import, package submodule).  Not counted as proved."""
+    import os
+    import shutil
+    import tempfile
+    import supp.assistant as A
+    import supp.project as Pj
+
+    def go(path):
+        top = tempfile.mkdtemp(prefix='supp-c06-')
+        try:
+            os.makedirs(os.path.join(top, 'pk'))
+            open(os.path.join(top, 'pk', '__init__.py'), 'w').close()
+            n = 0
+            names = ['A', 'B', 'D']
+            for form, imp, ref in IMPORT_FORMS:
+                for k in range(len(names) + 1):
+                    for shared_in in itertools.combinations(names, k):
+                        for j in range(len(names) + 1):
+                            for inst_in in itertools.combinations(names, j):
+                                n += 1
+                                run.case = '%s-%d' % (form, n)
+                                base_lines, body_attr, inst_attr = [], {}, {}
+
+                                def cls(lines, name, bases):
+                                    lines.append('class %s(%s):' % (name, bases) if bases else 'class %s:' % name)
+                                    at = body_attr.setdefault(name, {})
+                                    lines.append('    only_%s = 1' % name.lower())
+                                    at['only_%s' % name.lower()] = len(lines)
+                                    if name in shared_in:
+                                        lines.append('    def shared(self): return %r' % name)
+                                        at['shared'] = len(lines)
+                                    lines.append('    def meth_%s(self):' % name.lower())
+                                    at['meth_%s' % name.lower()] = len(lines)
+                                    if name in inst_in:
+                                        lines.append('        self.inst_x = %r' % name)
+                                        inst_attr.setdefault('inst_x', []).append((name, len(lines)))
+                                    lines.append('        return self')
+                                cls(base_lines, 'A', '')
+                                cls(base_lines, 'B', 'A')
+                                base = '\n'.join(base_lines) + '\n'
+                                for fn in ('basemod.py', os.path.join('pk', 'inner.py')):
+                                    with open(os.path.join(top, fn), 'w') as f:
+                                        f.write(base)
+                                    os.utime(os.path.join(top, fn), (n + 1000, n + 1000))
+                                lines = [imp]
+                                cls(lines, 'D', ref)
+                                lines.append('obj = D()')
+                                text = '\n'.join(lines) + '\n'
+                                want_attrs = set()
+                                for c in ('D', 'B', 'A'):
+                                    want_attrs |= set(body_attr[c])
+                                if inst_attr.get('inst_x'):
+                                    want_attrs.add('inst_x')
+                                project = Pj.Project([top])
+                                fname = os.path.join(top, 'main.py')
+                                src = text + 'obj.\n'
+                                pos = (len(lines) + 1, 4)
+                                try:
+                                    got = set(A.assist(project, src, pos, fname)[1])
+                                except Exception as e:
+                                    got = {'<raised %s>' % type(e).__name__}
+                                missing = sorted(want_attrs - got)
+                                if missing:
+                                    core.RUN.concretise = lambda model, ob, base=base, src=src, pos=pos, missing=missing: {'input': src, 'script': MM_REPLAY % {
+                                        'repo': core.REPO, 'base': base, 'text': src, 'call': 'assist(Project([d]), text, %r, os.path.join(d, "main.py"))' % (pos,),
+                                        'want': missing, 'why': 'attributes Python finds on D() are not proposed'}}
+                                prove('instance-proposals-cover-the-mro', not missing,
+                                      clause='completion on obj = D() proposes the class-body names and self-assigned attributes of D and of its bases in the '
+                                             'other module [missing %r]\n%s---\n%s' % (missing, base, text), path=path)
+                                core.RUN.concretise = None
+                                first = next((c for c in ('D', 'B', 'A') if 'shared' in body_attr[c]), None)
+                                if first:
+                                    src = text + 'obj.shared\n'
+                                    pos = (len(lines) + 1, 7)
+                                    try:
+                                        loc = A.location(project, src, pos, fname)
+                                    except Exception as e:
+                                        loc = '<raised %s>' % type(e).__name__
+                                    got_l = [(os.path.basename(l['file']), l['loc'][0]) for l in loc if isinstance(l, dict)] if isinstance(loc, list) else loc
+                                    wantf = 'main.py' if first == 'D' else ('inner.py' if 'pk' in imp else 'basemod.py')
+                                    ok = got_l == [(wantf, body_attr[first]['shared'])]
+                                    prove('definition-is-the-first-class-of-the-mro', ok,
+                                          clause='location(obj.shared) is the definition in the first class of the MRO that has it [%r expected, got %r]\n%s---\n%s' % (
+                                              (wantf, body_attr[first]['shared']), got_l, base, text), path=path)
+        finally:
+            run.case = None
+            shutil.rmtree(top, ignore_errors=True)
+    core.explore(lambda: None, lambda p, out: go(p))
